@@ -264,6 +264,10 @@ class Observation:
 
 # ------------------------------------------------------------------------------------------------ Lean table
 
+def symkey(sym):
+    return int.from_bytes(sym.encode(), 'big')
+
+
 def lstr(s):
     return '"' + s.replace('\\', '\\\\').replace('"', '\\"') + '"'
 
@@ -287,8 +291,8 @@ def lean_table(o):
          'def catCodes : List (String × Nat) := [' + ', '.join('(%s, %d)' % (lstr(n), o.cats.get(n, 10 ** 6)) for n in o.names) + ']', '',
          '/-- Strict abstract ancestors of each abstract class (`std::is_base_of`). -/',
          'def absAnc : List (Abs × List Abs) := [' + ', '.join('(.%s, %s)' % (ABS[i], labs(o.absanc.get(i, []))) for i in range(len(ABS))) + ']', '',
-         '/-- Category names without an interface class `ipr::Name`. -/',
-         'def noIface : List String := [' + ', '.join(lstr(n) for n in o.names if n in o.noiface) + ']', '',
+         '/-- Category names (and codes) without an interface class `ipr::Name`. -/',
+         'def noIface : List (String × Nat) := [' + ', '.join('(%s, %d)' % (lstr(n), o.noiface[n]['code']) for n in o.names if n in o.noiface) + ']', '',
          '/-- The leaf interface classes. -/', 'def ifaces : List Iface := [']
     items = []
     for n in o.names:
@@ -299,15 +303,19 @@ def lean_table(o):
     L.append(',\n'.join(items) + ']')
     L += ['', '/-- One row per implementation class, observed on a live node. -/', 'def rows : List Row := [']
     items = []
-    for sym in sorted(o.rows, key=lambda s: (o.rows[s]['cls'], s)):
+    order = sorted(o.rows, key=symkey)             # by class key: duplicate-freeness is then a linear check
+    for sym in order:
         r = o.rows[sym]
         items.append('  { cls := %s, category := %d, dyn := %s, absDyn := %s, fired := %s, chain := %s, viewSelf := %s, viewOther := %s }' % (
             lstr(r['cls']), r['cat'], r['dyn'], labs(r['absdyn']), lhooks(r['fired']), lhooks(r['chain']), r['view1'], r['view2']))
     L.append(',\n'.join(items) + ']')
-    L += ['', '/-- Mangled names of the observed classes (same order as `rows`). -/',
-          'def rowSyms : List String := [' + ', '.join(lstr(s) for s in sorted(o.rows, key=lambda s: (o.rows[s]['cls'], s))) + ']', '',
-          '/-- Mangled names of every concrete class derived from `ipr::Node` in the compiler\'s class dump of src/impl.cxx. -/',
-          'def srcClasses : List String := [' + ', '.join(lstr(s) for s, _ in o.dump['concrete']) + ']', '',
+    L += ['', '/-- The observed classes (same order as `rows`), identified by the bytes of their mangled type name read as one',
+          '    big-endian number (an exact encoding, compared natively by the kernel; comparing `String`s there is slow). -/',
+          'def rowKeys : List Nat := [' + ', '.join('%d' % symkey(s) for s in order) + ']', '',
+          '/-- Every concrete class derived from `ipr::Node` in the compiler\'s class dump of src/impl.cxx, same encoding. -/',
+          'def srcClasses : List Nat := [' + ', '.join('%d' % symkey(s) for s, _ in o.dump['concrete']) + ']', '',
+          '/-- For the reader: the mangled names behind `srcClasses`. -/',
+          'def srcClassNames : List String := [' + ', '.join(lstr(s) for s, _ in o.dump['concrete']) + ']', '',
           'end Ipr.Gen.C06', '']
     return '\n'.join(L)
 
